@@ -148,6 +148,13 @@ func (c *Ctx) CapHit(what string) {
 	c.mu.Unlock()
 }
 
+// CapsHit reports how many caps / internal deadlines have cut sub-spaces short so far.
+func (c *Ctx) CapsHit() int {
+	c.mu.Lock()
+	defer c.mu.Unlock()
+	return len(c.capsHit)
+}
+
 // Expired reports whether the tier's wall budget is used up.
 func (c *Ctx) Expired() bool { return !c.Deadline.IsZero() && time.Now().After(c.Deadline) }
 
